@@ -149,6 +149,10 @@ def check(rng, override=None):
 def oracle(ctx, hints, broken):
     try:
         viol, n = check(ctx['rng'])
+        import io, contextlib
+        with contextlib.redirect_stdout(io.StringIO()):
+            ve, ne = M.check_examples(['rbc', 'krusell_smith', 'hank'] if ctx['tier'] == 'thorough' or broken else ['rbc'], 'nl')
+        viol, n = viol + ve, n + ne
         skipped = 0
         if ctx['tier'] == 'thorough' or broken:
             for _ in range(6):
